@@ -10,24 +10,24 @@ import (
 // RouterRoles2 extends RouterRoles with the lifecycle constructs.
 type RouterRoles2 struct {
 	*RouterRoles
-	R                                *types.Named // Router
-	AddHandler, Run, RunHandlers     *ssa.Function
-	Close, IsClosed, Running         *ssa.Function
-	WaitFn                           *ssa.Function // helper waiting for handlers (called by Close, returns bool)
-	Watcher                          *ssa.Function // close watcher started by the run loop
-	StartLit                         *ssa.Function // goroutine literal in RunHandlers calling the run loop
-	SelfClose                        *ssa.Function // literal that closes the router when all handlers stopped
-	LA                               *LockAn
-	WRun, WLoop                      string // wait-group identities
-	ClosedF, ClosedLockF             *types.Var
-	ClosingCh, ClosedCh, RunningCh   *types.Var
-	HCloseCh                         *types.Var // handler's copy of the closing channel
-	HFunc, HSub, HSubTopic, HPub     *types.Var
-	HPubTopic, HName, HMsgCh         *types.Var
-	HStarted, HStartedCh             *types.Var
-	HStopFn, HStopped                *types.Var
-	HPubName, HSubName               *types.Var
-	Funcs                            []*ssa.Function
+	R                              *types.Named // Router
+	AddHandler, Run, RunHandlers   *ssa.Function
+	Close, IsClosed, Running       *ssa.Function
+	WaitFn                         *ssa.Function // helper waiting for handlers (called by Close, returns bool)
+	Watcher                        *ssa.Function // close watcher started by the run loop
+	StartLit                       *ssa.Function // goroutine literal in RunHandlers calling the run loop
+	SelfClose                      *ssa.Function // literal that closes the router when all handlers stopped
+	LA                             *LockAn
+	WRun, WLoop                    string // wait-group identities
+	ClosedF, ClosedLockF           *types.Var
+	ClosingCh, ClosedCh, RunningCh *types.Var
+	HCloseCh                       *types.Var // handler's copy of the closing channel
+	HFunc, HSub, HSubTopic, HPub   *types.Var
+	HPubTopic, HName, HMsgCh       *types.Var
+	HStarted, HStartedCh           *types.Var
+	HStopFn, HStopped              *types.Var
+	HPubName, HSubName             *types.Var
+	Funcs                          []*ssa.Function
 }
 
 func (c *Check) routerRoles2(id string) *RouterRoles2 {
@@ -215,9 +215,9 @@ func (c *Check) routerRoles2(id string) *RouterRoles2 {
 	}
 	ok := true
 	for what, f := range map[string]*ssa.Function{
-		"helper waiting for handlers (called by Close)":      r.WaitFn,
-		"close watcher (second goroutine of the run loop)":   r.Watcher,
-		"handler start literal in RunHandlers":               r.StartLit,
+		"helper waiting for handlers (called by Close)":                    r.WaitFn,
+		"close watcher (second goroutine of the run loop)":                 r.Watcher,
+		"handler start literal in RunHandlers":                             r.StartLit,
 		"self-close literal (closes the router when all handlers stopped)": r.SelfClose,
 	} {
 		if !c.Use(id, f, what) {
